@@ -75,7 +75,7 @@ pub fn plan_runs(plan: &Plan) -> (usize, usize) {
                     *runs += mult;
                     go(&b.inner, mult * b.k as usize, ev, runs);
                 }
-                Item::Barrier => {}
+                Item::Barrier | Item::Failed(_) => {}
             }
         }
     }
@@ -106,7 +106,7 @@ pub fn expected_counts(plan: &Plan, m: DMode, n_uids: usize) -> Vec<u32> {
                         go(&b.inner, mult * b.k as u32, false, m, v);
                     }
                 }
-                Item::Barrier => {}
+                Item::Barrier | Item::Failed(_) => {}
             }
         }
     }
